@@ -377,6 +377,11 @@ impl CounterGen {
 // route S: pub structs
 // ------------------------------------------------------------------------------------------
 
+/// Runs one call of the code under test; a panic is an observation (`impl panic`).
+fn guard<T>(f: impl FnOnce() -> T) -> Option<T> {
+    catch_unwind(AssertUnwindSafe(f)).ok()
+}
+
 fn timer_answer(res: std::thread::Result<(bool, i64)>) -> (String, Option<(bool, i64)>) {
     match res {
         Ok((q, et)) => (format!("q{}e{}", b(q), et), Some((q, et))),
@@ -404,30 +409,50 @@ fn run_s(rng: &mut Rng, steps: usize, out: &mut Out) -> bool {
     let nfocus = 1 + rng.below(4) as usize;
     let focus: Vec<Kind> = (0..nfocus).map(|_| *rng.pick(&KINDS)).collect();
     let extreme = rng.chance(1, 12);
-    if rng.chance(1, 40) {
+    if rng.chance(1, 15) {
         // saturation of the i16 up-counters needs 32767 pulses: one burst op
-        let n = rng.range(32_760, 32_770);
+        let n = rng.range(32_765, 32_770);
         let pv = draw_pv(rng, IntK::Int) as i16;
         if rng.bool() {
-            let mut last = None;
-            for _ in 0..n {
-                ctu.step(true, false, pv);
-                last = Some(ctu.step(false, false, pv));
-            }
-            let o = last.unwrap();
             out.line(format!("sburst ctu {n} {pv}"));
-            out.line(format!("impl q{}v{}", b(o.q), o.cv));
-            cg[0].feed(o.cv as i128, out);
-        } else {
-            let mut last = None;
-            for _ in 0..n {
-                ctud.step(true, false, false, false, pv);
-                last = Some(ctud.step(false, false, false, false, pv));
+            let res = guard(|| {
+                let mut last = None;
+                for _ in 0..n {
+                    ctu.step(true, false, pv);
+                    last = Some(ctu.step(false, false, pv));
+                }
+                last.unwrap()
+            });
+            match res {
+                Some(o) => {
+                    out.line(format!("impl q{}v{}", b(o.q), o.cv));
+                    cg[0].feed(o.cv as i128, out);
+                }
+                None => {
+                    out.line("impl panic");
+                    return true;
+                }
             }
-            let o = last.unwrap();
+        } else {
             out.line(format!("sburst ctud {n} {pv}"));
-            out.line(format!("impl u{}d{}v{}", b(o.qu), b(o.qd), o.cv));
-            cg[2].feed(o.cv as i128, out);
+            let res = guard(|| {
+                let mut last = None;
+                for _ in 0..n {
+                    ctud.step(true, false, false, false, pv);
+                    last = Some(ctud.step(false, false, false, false, pv));
+                }
+                last.unwrap()
+            });
+            match res {
+                Some(o) => {
+                    out.line(format!("impl u{}d{}v{}", b(o.qu), b(o.qd), o.cv));
+                    cg[2].feed(o.cv as i128, out);
+                }
+                None => {
+                    out.line("impl panic");
+                    return true;
+                }
+            }
         }
         out.count("s_burst");
         nontrivial = true;
@@ -470,23 +495,44 @@ fn run_s(rng: &mut Rng, steps: usize, out: &mut Out) -> bool {
             Kind::Ctu => {
                 let (cu, _, r, _, pv) = cg[0].next(rng);
                 out.line(format!("s ctu {} {} {}", b(cu), b(r), pv));
-                let o = ctu.step(cu, r, pv as i16);
-                out.line(format!("impl q{}v{}", b(o.q), o.cv));
-                nontrivial |= cg[0].feed(o.cv as i128, out);
+                match guard(|| ctu.step(cu, r, pv as i16)) {
+                    Some(o) => {
+                        out.line(format!("impl q{}v{}", b(o.q), o.cv));
+                        nontrivial |= cg[0].feed(o.cv as i128, out);
+                    }
+                    None => {
+                        out.line("impl panic");
+                        return true;
+                    }
+                }
             }
             Kind::Ctd => {
                 let (_, cd, _, ld, pv) = cg[1].next(rng);
                 out.line(format!("s ctd {} {} {}", b(cd), b(ld), pv));
-                let o = ctd.step(cd, ld, pv as i16);
-                out.line(format!("impl q{}v{}", b(o.q), o.cv));
-                nontrivial |= cg[1].feed(o.cv as i128, out);
+                match guard(|| ctd.step(cd, ld, pv as i16)) {
+                    Some(o) => {
+                        out.line(format!("impl q{}v{}", b(o.q), o.cv));
+                        nontrivial |= cg[1].feed(o.cv as i128, out);
+                    }
+                    None => {
+                        out.line("impl panic");
+                        return true;
+                    }
+                }
             }
             Kind::Ctud => {
                 let (cu, cd, r, ld, pv) = cg[2].next(rng);
                 out.line(format!("s ctud {} {} {} {} {}", b(cu), b(cd), b(r), b(ld), pv));
-                let o = ctud.step(cu, cd, r, ld, pv as i16);
-                out.line(format!("impl u{}d{}v{}", b(o.qu), b(o.qd), o.cv));
-                nontrivial |= cg[2].feed(o.cv as i128, out);
+                match guard(|| ctud.step(cu, cd, r, ld, pv as i16)) {
+                    Some(o) => {
+                        out.line(format!("impl u{}d{}v{}", b(o.qu), b(o.qd), o.cv));
+                        nontrivial |= cg[2].feed(o.cv as i128, out);
+                    }
+                    None => {
+                        out.line("impl panic");
+                        return true;
+                    }
+                }
             }
             Kind::RTrig | Kind::FTrig => {
                 let i = (kind == Kind::FTrig) as usize;
@@ -494,16 +540,31 @@ fn run_s(rng: &mut Rng, steps: usize, out: &mut Out) -> bool {
                     clk[i] = !clk[i];
                 }
                 out.line(format!("s {} {}", kind.name(), b(clk[i])));
-                let q = if i == 0 { rtrig.step(clk[i]) } else { ftrig.step(clk[i]) };
-                out.line(format!("impl q{}", b(q)));
-                nontrivial |= q;
+                let c = clk[i];
+                match guard(|| if i == 0 { rtrig.step(c) } else { ftrig.step(c) }) {
+                    Some(q) => {
+                        out.line(format!("impl q{}", b(q)));
+                        nontrivial |= q;
+                    }
+                    None => {
+                        out.line("impl panic");
+                        return true;
+                    }
+                }
             }
             Kind::Sr | Kind::Rs => {
                 let (s, r) = (rng.chance(35, 100), rng.chance(35, 100));
                 out.line(format!("s {} {} {}", kind.name(), b(s), b(r)));
-                let q = if kind == Kind::Sr { sr.step(s, r) } else { rs.step(s, r) };
-                out.line(format!("impl q{}", b(q)));
-                nontrivial |= s && r;
+                match guard(|| if kind == Kind::Sr { sr.step(s, r) } else { rs.step(s, r) }) {
+                    Some(q) => {
+                        out.line(format!("impl q{}", b(q)));
+                        nontrivial |= s && r;
+                    }
+                    None => {
+                        out.line("impl panic");
+                        return true;
+                    }
+                }
             }
         }
     }
@@ -939,8 +1000,40 @@ fn run_p(rng: &mut Rng, cycles: usize, out: &mut Out) -> Result<bool, String> {
         let j = rng.below(i as u64 + 1) as usize;
         sites.swap(i, j);
     }
-    let mut src = String::from("PROGRAM P\nVAR\n");
-    for (i, t) in types.iter().enumerate() {
+    // some instances live inside a user-defined wrapper FUNCTION_BLOCK (one wrapper type per FB type,
+    // shared by all wrapped instances of that type), so that nested instance storage is exercised too
+    let wrapped: Vec<bool> = (0..n).map(|_| rng.chance(1, 3)).collect();
+    let mut wrappers: std::collections::BTreeMap<String, String> = Default::default();
+    let mut decl_types: Vec<String> = Vec::new();
+    for i in 0..n {
+        if !wrapped[i] {
+            decl_types.push(types[i].clone());
+            continue;
+        }
+        let (ins, outs) = st_params(&gens[i]);
+        let sig: String = ins.iter().chain(outs.iter()).map(|(_, ty)| &ty[..2]).collect();
+        let wname = format!("W_{}_{}", types[i], sig);
+        if !wrappers.contains_key(&wname) {
+            let mut w = format!("FUNCTION_BLOCK {wname}\nVAR_INPUT\n");
+            for (p, ty) in &ins {
+                w.push_str(&format!("  a_{p} : {ty};\n"));
+            }
+            w.push_str("END_VAR\nVAR_OUTPUT\n");
+            for (p, ty) in &outs {
+                w.push_str(&format!("  b_{p} : {ty};\n"));
+            }
+            w.push_str(&format!("END_VAR\nVAR\n  f : {};\nEND_VAR\n", types[i]));
+            let mut args: Vec<String> = ins.iter().map(|(p, _)| format!("{p} := a_{p}")).collect();
+            args.extend(outs.iter().map(|(p, _)| format!("{p} => b_{p}")));
+            w.push_str(&format!("f({});\nEND_FUNCTION_BLOCK\n\n", args.join(", ")));
+            wrappers.insert(wname.clone(), w);
+        }
+        decl_types.push(wname);
+        out.count("p_wrapped_instance");
+    }
+    let mut src: String = wrappers.values().cloned().collect();
+    src.push_str("PROGRAM P\nVAR\n");
+    for (i, t) in decl_types.iter().enumerate() {
         src.push_str(&format!("  f{i} : {t};\n"));
     }
     for (s, &i) in sites.iter().enumerate() {
@@ -956,8 +1049,9 @@ fn run_p(rng: &mut Rng, cycles: usize, out: &mut Out) -> Result<bool, String> {
     src.push_str("END_VAR\n");
     for (s, &i) in sites.iter().enumerate() {
         let (ins, outs) = st_params(&gens[i]);
-        let mut args: Vec<String> = ins.iter().map(|(p, _)| format!("{p} := i{s}_{p}")).collect();
-        args.extend(outs.iter().map(|(p, _)| format!("{p} => o{s}_{p}")));
+        let (pi, po) = if wrapped[i] { ("a_", "b_") } else { ("", "") };
+        let mut args: Vec<String> = ins.iter().map(|(p, _)| format!("{pi}{p} := i{s}_{p}")).collect();
+        args.extend(outs.iter().map(|(p, _)| format!("{po}{p} => o{s}_{p}")));
         src.push_str(&format!("IF g{s} THEN f{i}({}); END_IF;\n", args.join(", ")));
     }
     src.push_str("END_PROGRAM\n");
@@ -968,9 +1062,17 @@ fn run_p(rng: &mut Rng, cycles: usize, out: &mut Out) -> Result<bool, String> {
     };
     let mut ids = Vec::new();
     for i in 0..n {
-        match h.runtime().storage().get_instance_var(pid, &format!("f{i}")) {
-            Some(Value::Instance(id)) => ids.push(*id),
+        let outer = match h.runtime().storage().get_instance_var(pid, &format!("f{i}")) {
+            Some(Value::Instance(id)) => *id,
             other => return Err(format!("fb instance f{i}: {other:?}")),
+        };
+        if wrapped[i] {
+            match h.runtime().storage().get_instance_var(outer, "f") {
+                Some(Value::Instance(id)) => ids.push(*id),
+                other => return Err(format!("nested fb instance f{i}.f: {other:?}")),
+            }
+        } else {
+            ids.push(outer);
         }
     }
     for (g, t) in gens.iter().zip(&types) {
@@ -1061,7 +1163,7 @@ pub const TP_WITNESS_PT: i64 = 10;
 
 fn run_witness(out: &mut Out) -> Result<(), String> {
     // route S
-    out.line("case 900000001");
+    out.line("case w-tp-struct");
     out.line("tag witness tp-retrigger-struct");
     let mut tp = Tp::new();
     for (inp, dt) in TP_WITNESS {
@@ -1071,7 +1173,7 @@ fn run_witness(out: &mut Out) -> Result<(), String> {
     }
     out.line("end");
     // route P: the same trace through an ST program
-    out.line("case 900000002");
+    out.line("case w-tp-program");
     out.line("tag witness tp-retrigger-program");
     let src = "PROGRAM P\nVAR\n  f0 : TP;\n  a : BOOL;\n  pt : TIME;\n  q : BOOL;\n  et : TIME;\nEND_VAR\nf0(IN := a, PT := pt, Q => q, ET => et);\nEND_PROGRAM\n";
     let mut h = TestHarness::from_source(src).map_err(|e| format!("witness compile: {e}"))?;
